@@ -7,6 +7,8 @@ require (
 	gonum.org/v1/gonum v0.15.1
 )
 
+require golang.org/x/exp v0.0.0-20231110203233-9a3e6036ecaa // indirect
+
 replace github.com/aclements/go-moremath => /repo
 
 replace golang.org/x/exp => /root/go/pkg/mod/golang.org/x/exp@v0.0.0-20231110203233-9a3e6036ecaa
